@@ -323,7 +323,7 @@ fn sanitizer_tiers(ctx: &Ctx, rep: &mut Report) {
                     runs_ok += String::from_utf8_lossy(&o.stdout).lines().filter(|l| l.starts_with("RUNRESULT") && !l.contains("\"panic\"") && !l.contains("\"error\"")).count() as u64;
                 }
             }
-            let out = Command::new(&exe).args(["C13", "--sanitizer-workload", "200"]).env("TSAN_OPTIONS", format!("halt_on_error=0 exitcode=0 log_path={}", log.display())).output();
+            let out = Command::new(&exe).args(["C13", "--sanitizer-workload", "200"]).env("RAYON_NUM_THREADS", "8").env("TSAN_OPTIONS", format!("halt_on_error=0 exitcode=0 log_path={}", log.display())).output();
             if let Ok(o) = out {
                 runs_ok += String::from_utf8_lossy(&o.stdout).lines().filter(|l| l.starts_with("SANITIZER-ROUND-OK")).count() as u64;
             }
@@ -366,6 +366,8 @@ fn sanitizer_tiers(ctx: &Ctx, rep: &mut Report) {
         .current_dir(&harness)
         .args(["+nightly", "miri", "run", "--offline", "--no-default-features", "--bin", "rcv", "--target-dir", "target-miri", "--", "C13", "--sanitizer-workload", "1"])
         .env("MIRIFLAGS", format!("-Zmiri-disable-isolation -Zmiri-tree-borrows -Zmiri-ignore-leaks -Zmiri-many-seeds=0..{seeds}"))
+        // the driver's large rayon pool (meant for harness concurrency) would cost the interpreter hours
+        .env("RAYON_NUM_THREADS", "4")
         .env("CARGO_NET_OFFLINE", "true")
         .output();
     match out {
